@@ -163,6 +163,8 @@ type chainModel struct {
 	Cache  map[string]string // state key -> "yes" | "maybe"
 	Taint  map[string]bool
 	Failed map[string]bool // targets whose most recent execution failed (a failure must leave no cache entry)
+	// lastKeys: state key of every target in the most recent prediction (transient, not part of the state)
+	lastKeys map[string]string
 }
 
 func (m chainModel) clone() chainModel {
@@ -270,6 +272,7 @@ func chainBoxKey(b *hist.Box) string {
 // exit status class and the labels that fail.
 func (e *chainEngine) predict(st chainState, m *chainModel, cacheDisabled bool) (pred map[string]string, failed []string, after chainState) {
 	pred = map[string]string{}
+
 	after = st.clone()
 	out := map[string]string{"x": st.xOut(), "y": st.yOut(), "z": st.zOut(), "w": "w", "d": "d(" + st.xOut() + ")", "e": "e(d(" + st.xOut() + "),const)"}
 	deps := map[string][]string{"y": {"x"}, "z": {"y"}, "d": {"x"}, "e": {"d"}}
@@ -287,6 +290,10 @@ func (e *chainEngine) predict(st chainState, m *chainModel, cacheDisabled bool) 
 			k += "|" + out[d]
 		}
 		return k
+	}
+	m.lastKeys = map[string]string{}
+	for _, t := range chainTargets {
+		m.lastKeys[t] = keyOf(t)
 	}
 	upFailed := map[string]bool{}
 	for _, t := range chainTargets {
@@ -533,8 +540,18 @@ func (e *chainEngine) doOp(n *cnode, op chainOp) *cnode {
 		if unexpectedFailure {
 			break // reported below as a failing build; which targets ran is then not meaningful
 		}
-		if failFast && len(failed) > 0 && t != failed[0] {
-			continue // which independent targets still start under fail-fast depends on timing
+		if failFast && len(failed) > 0 {
+			// which independent targets still start under fail-fast depends on timing; that holds for the failing ones
+			// among themselves as well (y and d both depend on x only): at least one of them was attempted
+			anyFailedRan := false
+			for _, f := range failed {
+				if executed[f] {
+					anyFailedRan = true
+				}
+			}
+			if t != failed[0] || anyFailedRan {
+				continue
+			}
 		}
 		switch {
 		case p == "run" && !executed[t]:
@@ -649,6 +666,27 @@ func (e *chainEngine) doOp(n *cnode, op chainOp) *cnode {
 					}
 					vio(sig, "//p:%s was tainted and executed successfully but its taint marker %s is still present after grog exited", t, name)
 					model.Taint[t] = true // keep the model aligned with reality for the rest of the history
+				}
+			}
+		}
+	}
+	if failFast && len(failed) > 0 {
+		// which of the independent targets got to run before the build stopped is a matter of timing: the model follows
+		// what was observed (a target that did not run has neither a new cache entry nor a new failure)
+		for _, t := range chainTargets {
+			if pred[t] == "run" && !executed[t] {
+				if k := model.lastKeys[t]; k != "" && n.model.Cache[k] == "" {
+					delete(model.Cache, k)
+				} else if k != "" {
+					model.Cache[k] = n.model.Cache[k]
+				}
+				if n.model.Failed[t] {
+					model.Failed[t] = true
+				} else {
+					delete(model.Failed, t)
+				}
+				if n.model.Taint[t] {
+					model.Taint[t] = true
 				}
 			}
 		}
@@ -853,7 +891,7 @@ func markOp(m string) chainOp { return chainOp{Name: "mark " + m, Kind: "mark", 
 
 func init() {
 	Registry["C13"] = func(c *Ctx) {
-		c.R.Rule = "breadth-first search over histories of <= n operations from {edit (output of x unchanged), edit (output changes), grog taint //p:x | //p:y | //p/..., grog build, grog build --enable-cache=false, grog build with the taint-clearing goroutine delayed} on a 4-target workspace (chain x->y->z plus w) by the REAL binary, in three universes (no-cache tag on nobody / x / y); after every build the executed set (trace written by the commands) is compared with a reference model of the documented rules: tainted => executed once, then clean; no-cache => executed in every build; cache disabled => everything executes; dependants re-execute only if the re-executed target's output bytes changed. A second search (one operation deeper) combines grog taint with executions that fail (non-zero exit; exit 0 without the declared output; thorough: failing output check): a failed execution does not consume the taint. Taint isolation: 9 targets whose labels differ only in where / : _ - . sit, everything cached; every ordered pair (taint X; build Y: nothing runs; build X: exactly X runs; build X: nothing; build //...: nothing) and every unordered pair (taint both; build //...: exactly both; again: nothing). Non-trivial = a build that executed some but not all targets."
+		c.R.Rule = "breadth-first search over histories of <= n operations from {edit (output of x unchanged), edit (output changes), grog taint //p:x | //p:y | //p/..., grog build, grog build --enable-cache=false, grog build with the taint-clearing goroutine delayed} on a 4-target workspace (chain x->y->z plus w) by the REAL binary, in three universes (no-cache tag on nobody / x / y); after every build the executed set (trace written by the commands) is compared with a reference model of the documented rules: tainted => executed once, then clean; no-cache => executed in every build; cache disabled => everything executes; dependants re-execute only if the re-executed target's output bytes changed. A second search (one operation deeper) combines grog taint with an edit of the tainted target's own input (the taint is consumed by the execution the edit causes) and with executions that fail (non-zero exit; exit 0 without the declared output; thorough: failing output check): a failed execution does not consume the taint. Taint isolation: 9 targets whose labels differ only in where / : _ - . sit, everything cached; every ordered pair (taint X; build Y: nothing runs; build X: exactly X runs; build X: nothing; build //...: nothing) and every unordered pair (taint both; build //...: exactly both; again: nothing). Non-trivial = a build that executed some but not all targets."
 		c.R.Assume("after a build with the cache disabled (or of a no-cache target) the model makes no prediction for the affected states until they were built normally again (the documentation does not specify it)", "the detached goroutine that clears a taint has two schedules (before / after process exit): the adverse one is forced by delaying TaintCache.Clear by 1.5 s (a slow cache backend; grog idles about 0.5 s before exiting) in a second binary built through the overlay")
 		chainCheck("C13", []string{"C13:"}, 4, 5, func(e *chainEngine, thorough bool) {
 			e.noCache = []string{"", "x", "y"}
@@ -865,7 +903,7 @@ func init() {
 		c13TaintIsolation(c)
 		// second pass: taints x failing executions (the taint is consumed by a SUCCESSFUL execution only)
 		chainCheck("C13", []string{"C13:", "C05:failed-target-not-attempted-again"}, 5, 6, func(e *chainEngine, thorough bool) {
-			e.ops = []chainOp{opTaintY, markOp("fail-y-noout"), markOp("fail-y-exit"), opBuild}
+			e.ops = []chainOp{opTaintY, markOp("fail-y-noout"), markOp("fail-y-exit"), opEditY, opBuild}
 			if thorough {
 				e.ops = append(e.ops, opTaintAll, markOp("w-broken"))
 			}
